@@ -18,6 +18,7 @@ import (
 type PropConfig struct {
 	Funcs          []string `json:"funcs"`           // functions verified against their contracts
 	Safety         []string `json:"safety"`          // functions (or package prefixes ending in "...") swept for run-time panics
+	FrameChecks    []FrameCheck `json:"frame_checks"` // static frame analysis: the function (and everything it can call) writes no pre-existing object in the listed heaps
 	Contracts      []string `json:"contracts"`       // verified with callees used through their contracts; callees without contract are opaque (may-write set havoced), nothing is inlined
 	Shallow        []string `json:"shallow"`         // verified against contracts without inlining callees (callees without contract: may-write set havoced)
 	Lock           []string `json:"lock"`            // functions checked for lock discipline
@@ -61,6 +62,16 @@ func readJSON(path string, v interface{}) error {
 	return json.Unmarshal(data, v)
 }
 
+// FrameCheck: a frame condition decided by the may-write analysis instead of an SMT query: no store / map update /
+// append reachable from Func (closed-world call graph) targets an object of one of the Forbid heaps unless the object
+// was allocated by the very function that writes it.
+type FrameCheck struct {
+	Func   string   `json:"func"`
+	Forbid []string `json:"forbid"`
+	Why    string   `json:"why"`
+	Tags   []string `json:"tags"`
+}
+
 type oblResult struct {
 	o       *Obligation
 	res     SolverResult
@@ -71,6 +82,7 @@ type oblResult struct {
 }
 
 var failedSoFar int32
+var knownFindingClause = map[string]bool{} // clause keys named by open known findings of the property being checked
 var confirmAll bool // set when recording a baseline: every solver runs to completion
 
 func solveEscalating(o *Obligation, tier string, seed int) oblResult {
@@ -112,6 +124,10 @@ func solveEscalating(o *Obligation, tier string, seed int) oblResult {
 	if o.Kind == "safety" {
 		steps = steps[:2]
 	}
+	if knownFindingClause[clauseKey(o.Func+"::"+o.Name)] && tier != "thorough" {
+		// an obligation of a clause listed as an open known finding: one attempt (it is either discharged at once or is the finding)
+		steps = steps[:1]
+	}
 	for _, step := range steps {
 		if tries > 0 && atomic.LoadInt32(&failedSoFar) >= 3 && tier != "thorough" {
 			// enough violations to report: do not spend the escalation budget on the rest
@@ -142,7 +158,7 @@ func solveEscalating(o *Obligation, tier string, seed int) oblResult {
 			break
 		}
 	}
-	if r.Status != "unsat" {
+	if r.Status != "unsat" && !knownFindingClause[clauseKey(o.Func+"::"+o.Name)] {
 		atomic.AddInt32(&failedSoFar, 1)
 	}
 	if tr := os.Getenv("GOVC_TRACE"); tr != "" && strings.Contains(o.Func+"::"+o.Name, tr) {
@@ -207,6 +223,13 @@ func cmdCheck(args []string) int {
 		Findings []KnownFinding `json:"findings"`
 	}
 	readJSON(filepath.Join(verifDir, "known_findings.json"), &kf)
+	for _, f := range kf.Findings {
+		if f.Property == *prop && f.Status == "open" {
+			for _, o := range f.Obligations {
+				knownFindingClause[o] = true
+			}
+		}
+	}
 	var bl Baseline
 	readJSON(filepath.Join(verifDir, "obligations.baseline.json"), &bl)
 	inBaseline := map[string]bool{}
@@ -318,6 +341,39 @@ func cmdCheck(args []string) int {
 		}(i, o)
 	}
 	wg.Wait()
+	// static frame conditions
+	for _, fc := range cfg.FrameChecks {
+		fn, ok := w.funcs[fc.Func]
+		if !ok {
+			o := &Obligation{Name: funcShort(fc.Func) + ":static-frame", Kind: "frame-static", Func: fc.Func, Clause: fc.Why}
+			results = append(results, oblResult{o: o, res: SolverResult{Status: "error", Solver: "static may-write analysis", Output: "function " + fc.Func + " does not exist in this tree"}, tries: 1})
+			continue
+		}
+		written := mayWriteOldKeys(w.prog, fn)
+		_, all := written["*"]
+		for _, h := range fc.Forbid {
+			bad := all
+			var hit []string
+			for id := range written {
+				if id == h || (strings.HasSuffix(h, ":*") && strings.HasPrefix(id, strings.TrimSuffix(h, "*"))) {
+					bad = true
+					hit = append(hit, id)
+				}
+			}
+			o := &Obligation{Name: funcShort(fc.Func) + ":static-frame[" + h + "]", Kind: "frame-static", Func: fc.Func, Tags: fc.Tags,
+				Clause: fc.Why + " (no write to a pre-existing object of heap " + h + " is reachable)"}
+			st, out := "unsat", ""
+			if bad {
+				st = "sat"
+				sort.Strings(hit)
+				out = "the may-write analysis finds a reachable write to a pre-existing object of heap " + h + ": " + strings.Join(hit, " ")
+				if all {
+					out += " (a call through an open function value or interface makes every heap writable)"
+				}
+			}
+			results = append(results, oblResult{o: o, res: SolverResult{Status: st, Solver: "static may-write analysis", Output: out}, proved: !bad, tries: 1})
+		}
+	}
 
 	// closed SMT lemmas (string theory etc.); a sat answer carries a model that is replayed on the real code
 	type lemmaRes struct {
@@ -380,6 +436,13 @@ func cmdCheck(args []string) int {
 			if r.proved {
 				fmt.Printf("KNOWN-FINDING-GONE: property=%s %s (obligation %s now discharges)\n", *prop, f.ID, name)
 			}
+			seenFinding[f.ID] = true
+			continue
+		}
+		// a finding may also name a contract clause (all return sites / conjuncts of it): the obligations of that
+		// clause that fail are the finding, those that discharge are counted as usual
+		if f, ok := openFinding[clauseKey(name)]; ok && !r.proved {
+			notClaimed = append(notClaimed, name)
 			seenFinding[f.ID] = true
 			continue
 		}
@@ -647,6 +710,13 @@ var reSite = regexp.MustCompile(`#[0-9]+\.([0-9]+)`)
 
 // clauseKey identifies the contract clause an obligation comes from, independent of the return path,
 // the call-site ordinal and the conjunct it was split into (those change under harmless edits).
+func funcShort(full string) string {
+	if i := strings.Index(full, "."); i >= 0 {
+		return full[i+1:]
+	}
+	return full
+}
+
 func clauseKey(name string) string {
 	k := reRet.ReplaceAllString(name, "")
 	k = reConj.ReplaceAllString(k, "")
